@@ -162,7 +162,9 @@ type Stack struct {
 
 var dbNames = []string{"state", "block", "cross", "utxo", "utxoOutput", "utxoToken", "balanceRecord"}
 
-func poceed(w *wasm.WASM, coinbase common.Address, amount *big.Int, logger log.Logger) error { return nil }
+func poceed(w *wasm.WASM, coinbase common.Address, amount *big.Int, logger log.Logger) error {
+	return nil
+}
 
 // NewStack builds (or re-opens) a stack.
 func NewStack(o Opts) (*Stack, error) {
